@@ -19,7 +19,8 @@ import Glom.Generated.C06Facts
                | {"op":"set_star","v":b}
                | {"op":"glom","reg":r,"same_as_fresh":b|null,"same_as_first":b,"inputs_unchanged":b,
                   "same_as_rebuilt":b,"same_as_expected":b,"same_as_fresh_registry":b,"spec_graph_unchanged":b,"scope_unchanged":b,
-                  "impl_lookups":[[type,op,tag]…],
+                  "impl_lookups":[[type,op,tag,raise_exc]…],   (tag "<none>": UnregisteredTarget raised, "<false>": False returned)
+                  "same_in_other_layouts":b|null,
                   "impl_star":[[type,"kg"|"it"|"none"|"log",[[op,tag]…]]…],     (a wildcard call: per visited item)
                   "vars":{"key":k,"base":[[n,v]…],"defaults":[[n,v]…],"ops":[["w",n,v]|["r",n]…],"impl_reads":[v|null…]},
                   "impl_sizes":[…]}
@@ -28,7 +29,8 @@ import Glom.Generated.C06Facts
                                        "impl_out":{"ok":G}|{"err":cls},"impl_heap_after":[cell…],"impl_result_old":b}
            heap / Val / cell: the wire format of Glom/Py/Json.lean (a bytearray is a "list" cell of class "bytearray");
            Sp: {"lit":Val} | {"t":[[opchar,Sp]…]} | {"seq":"list"|"tuple"|"set"|"fset","xs":[Sp…]} | {"dict":[[Sp,Sp]…]}
-               | {"coalesce":[Sp…],"default":Sp|null};
+               | {"coalesce":[Sp…],"default":Sp|null} | {"call":name,"args":[Sp…]}  (a callable of the catalogue;
+                 as a plain spec it is {"lit":{"fn":name}});
            G (a result, as far as identity shows): a scalar Val | {"r":a} a mutable object that existed before the call
                | {"new":cls,"v":[G…]} | {"new":cls,"kv":[[G,G]…]} an object built by the call.
          "classes" may carry "virt":[abc…] (virtual bases of the class, as Python computed them); a tag "<none>" in
@@ -66,12 +68,56 @@ def sizesOfJson (j : Json) : Except String (Nat × Nat) :=
   | .arr #[a, b] => do return (← a.getNat?, ← b.getNat?)
   | _ => throw "bad sizes"
 
-def pairsOfJson (j : Json) : List (String × String) :=
-  match j with
-  | .arr a => a.toList.filterMap (fun e => match e with
-      | .arr #[.str k, .str v] => some (k, v)
-      | _ => none)
-  | _ => []
+/-! strict decoding: a missing or malformed field is a decode error (the harness reports it as a
+    harness error), never a default -/
+
+def reqBool (j : Json) (k : String) : Except String Bool :=
+  match j.getObjVal? k with
+  | .ok (.bool b) => pure b
+  | .ok x => throw s!"field {k}: expected a bool, got {x.compress}"
+  | .error _ => throw s!"field {k} missing"
+
+/-- a check that was evaluated (a bool) or not applicable to this call (null) -/
+def reqBoolOrNull (j : Json) (k : String) : Except String (Option Bool) :=
+  match j.getObjVal? k with
+  | .ok (.bool b) => pure (some b)
+  | .ok .null => pure none
+  | .ok x => throw s!"field {k}: expected a bool or null, got {x.compress}"
+  | .error _ => throw s!"field {k} missing"
+
+def reqArr (j : Json) (k : String) : Except String (List Json) :=
+  match j.getObjVal? k with
+  | .ok (.arr a) => pure a.toList
+  | .ok x => throw s!"field {k}: expected an array, got {x.compress}"
+  | .error _ => throw s!"field {k} missing"
+
+def reqArrOrNull (j : Json) (k : String) : Except String (Option (List Json)) :=
+  match j.getObjVal? k with
+  | .ok (.arr a) => pure (some a.toList)
+  | .ok .null => pure none
+  | .ok x => throw s!"field {k}: expected an array or null, got {x.compress}"
+  | .error _ => throw s!"field {k} missing"
+
+def reqNat (j : Json) (k : String) : Except String Nat :=
+  match j.getObjVal? k with
+  | .ok v => (match v.getNat? with | .ok n => pure n | .error _ => throw s!"field {k}: expected a natural number, got {v.compress}")
+  | .error _ => throw s!"field {k} missing"
+
+def reqStr (j : Json) (k : String) : Except String String :=
+  match j.getObjVal? k with
+  | .ok (.str x) => pure x
+  | .ok x => throw s!"field {k}: expected a string, got {x.compress}"
+  | .error _ => throw s!"field {k} missing"
+
+def strsOfJson (what : String) (l : List Json) : Except String (List String) :=
+  l.mapM (fun e => match e with
+    | .str x => pure x
+    | _ => throw s!"{what}: expected a string, got {e.compress}")
+
+def pairsOfJson (what : String) (l : List Json) : Except String (List (String × String)) :=
+  l.mapM (fun e => match e with
+    | .arr #[.str k, .str v] => pure (k, v)
+    | _ => throw s!"{what}: expected [string, string], got {e.compress}")
 
 structure Acc where
   pc : PathCache PathRepr := {}
@@ -84,21 +130,25 @@ structure Acc where
   why : String := ""
   nOps : Nat := 0
 
-def sizesOK (a : Acc) (j : Json) : Bool :=
-  match j.getObjVal? "impl_sizes" with
-  | .ok s => match sizesOfJson s with
-    | .ok (t, f) => t == (a.pc.get true).length && f == (a.pc.get false).length
-    | .error _ => false
-  | .error _ => true
+def sizesOK (a : Acc) (j : Json) : Except String Bool := do
+  let (t, f) ← sizesOfJson (← j.getObjVal? "impl_sizes")
+  return t == (a.pc.get true).length && f == (a.pc.get false).length
 
-/-- replay the handler lookups of one call: (agree with the memo model, equal to the uncached lookup, memo) -/
-def replayLookups (reg : TReg) : HCache Tag → List (String × String × String) → Bool × Bool × HCache Tag
+/-- what a lookup shows: the tag of the handler, "<none>" = UnregisteredTarget was raised,
+    "<false>" = `False` was returned (only a `raise_exc=False` lookup can) -/
+def shownTag (rx : Bool) (h : Option Tag) : String :=
+  match h with
+  | some t => t
+  | none => if rx then "<none>" else "<false>"
+
+/-- replay the handler lookups of one call (type, op, what the implementation showed, raise_exc):
+    (agree with the memo model, equal to the uncached lookup, memo) -/
+def replayLookups (reg : TReg) : HCache Tag → List (String × String × String × Bool) → Bool × Bool × HCache Tag
   | hc, [] => (true, true, hc)
-  | hc, (ty, op, tag) :: rest =>
-    let (h, hc') := getHandler reg.compute hc (ty, op)
+  | hc, (ty, op, tag, rx) :: rest =>
+    let (h, hc') := getHandler reg.compute hc (ty, op) rx
     let (ag, ok, hc'') := replayLookups reg hc' rest
-    let expected : Option String := if tag == "<none>" then none else some tag
-    (ag && h == expected, ok && reg.compute (ty, op) == expected, hc'')
+    (ag && shownTag rx h == tag, ok && shownTag rx (reg.compute (ty, op)) == tag, hc'')
 
 /-- what the implementation showed of the expansion of one visited item: its exact type, how its
     children were reached as far as the result shows it ("kg" keys+get, "it" iterate, "none", or
@@ -108,12 +158,11 @@ structure StarObs where
   mode : String
   tags : List (String × String)
 
-def starObsOfJson (j : Json) : List StarObs :=
-  match j with
-  | .arr a => a.toList.filterMap (fun e => match e with
-      | .arr #[.str ty, .str mode, tags] => some { ty := ty, mode := mode, tags := pairsOfJson tags }
-      | _ => none)
-  | _ => []
+def starObsOfJson (l : List Json) : Except String (List StarObs) :=
+  l.mapM (fun e => match e with
+    | .arr #[.str ty, .str mode, .arr tags] => do
+      return { ty := ty, mode := mode, tags := ← pairsOfJson "impl_star tags" tags.toList }
+    | _ => throw s!"impl_star: expected [type, mode, tags], got {e.compress}")
 
 def starMatches (o : StarObs) (u : StarUse Tag) : Bool :=
   (o.mode == "log" || o.mode == u.mode) && o.tags == u.tagged
@@ -123,20 +172,17 @@ def starAllMatch : List StarObs → List (StarUse Tag) → Bool
   | o :: os, u :: us => starMatches o u && starAllMatch os us
   | _, _ => false
 
-def vopsOfJson (j : Json) : List (VOp String) :=
-  match j with
-  | .arr a => a.toList.filterMap (fun e => match e with
-      | .arr #[.str "w", .str n, .str v] => some (.write n v)
-      | .arr #[.str "r", .str n] => some (.read n)
-      | _ => none)
-  | _ => []
+def vopsOfJson (l : List Json) : Except String (List (VOp String)) :=
+  l.mapM (fun e => match e with
+    | .arr #[.str "w", .str n, .str v] => pure (.write n v)
+    | .arr #[.str "r", .str n] => pure (.read n)
+    | _ => throw s!"vars ops: expected ['w', name, value] or ['r', name], got {e.compress}")
 
-def readsOfJson (j : Json) : List (Option String) :=
-  match j with
-  | .arr a => a.toList.map (fun e => match e with
-      | .str v => some v
-      | _ => none)
-  | _ => []
+def readsOfJson (l : List Json) : Except String (List (Option String)) :=
+  l.mapM (fun e => match e with
+    | .str v => pure (some v)
+    | .null => pure none
+    | _ => throw s!"vars reads: expected a string or null, got {e.compress}")
 
 
 /-! ### T arithmetic / container-building specs on the heap model -/
@@ -174,6 +220,10 @@ partial def spOfJson (j : Json) : Except String Sp := do
       | .arr #[k, v] => do return (← spOfJson k, ← spOfJson v)
       | _ => throw s!"bad pair {e.compress}")
     return .dict (es.foldr (fun x r => Pairs.cons x.1 x.2 r) Pairs.nil)
+  else if let .ok (.str fn) := j.getObjVal? "call" then
+    match j.getObjVal? "args" with
+    | .ok (.arr a) => return .call fn (← sps a)
+    | _ => throw "call without args"
   else if let .ok (.arr a) := j.getObjVal? "coalesce" then
     match j.getObjVal? "default" with
     | .ok .null | .error _ => return .coalesce (← sps a) false (.lit .none)
@@ -233,8 +283,14 @@ def arithCase (a : Json) : Except String (Bool × Bool × String) := do
   let after ← heapOfJson (← a.getObjVal? "impl_heap_after")
   let resOld ← a.getObjValAs? Bool "impl_result_old"
   let implOut ← a.getObjVal? "impl_out"
+  -- exactly one of {"ok": G} / {"err": class name}
+  match implOut.getObjVal? "ok", implOut.getObjVal? "err" with
+  | .ok _, .error _ => pure ()
+  | .error _, .ok (.str _) => pure ()
+  | _, _ => throw s!"impl_out: expected an object with ok or err, got {implOut.compress}"
   -- the property, on the implementation's observation
   let obs : ArithObs := { heapAfter := after, resultOld := resOld }
+  if !sp.pureCalls then throw "an arith entry names a mutating callable: outside the property's domain"
   let holds := checkArith heap sp obs
   let why := if holds then "" else
     (if after != heap then "an object that existed before the call (target / spec) was changed by evaluating a non-mutating spec"
@@ -273,7 +329,7 @@ def stepOp (maxCache : Nat) (a : Acc) (j : Json) : Except String Acc := do
     let a' := { a with pc := pc' }
     -- the property: the answer is the fresh parse under the current flag
     let ok := impl == parseText a.star text
-    let ag := impl == p && sizesOK a' j
+    let ag := impl == p && (← sizesOK a' j)
     let why := if !ok && a.why.isEmpty then s!"from_text({text}) differs from a fresh parse at op {a.nOps}" else a.why
     return { a' with holds := a.holds && ok, agree := a.agree && ag, why := why }
   | "fill" =>
@@ -281,71 +337,71 @@ def stepOp (maxCache : Nat) (a : Acc) (j : Json) : Except String Acc := do
     let n ← j.getObjValAs? Nat "n"
     let pc' := (List.range n).foldl (fun pc i => (fromText parseText maxCache a.star pc s!"{pre}{i}").2) a.pc
     let a' := { a with pc := pc' }
-    return { a' with agree := a.agree && sizesOK a' j }
+    return { a' with agree := a.agree && (← sizesOK a' j) }
   | "glom" =>
-    let fresh := match j.getObjVal? "same_as_fresh" with
-      | .ok (.bool b) => b
-      | _ => true
-    let first := (j.getObjValAs? Bool "same_as_first").toOption.getD true
-    let unch := (j.getObjValAs? Bool "inputs_unchanged").toOption.getD true
-    let rebuilt := (j.getObjValAs? Bool "same_as_rebuilt").toOption.getD true
-    let freshReg := (j.getObjValAs? Bool "same_as_fresh_registry").toOption.getD true
-    let specUnch := (j.getObjValAs? Bool "spec_graph_unchanged").toOption.getD true
-    let scopeUnch := (j.getObjValAs? Bool "scope_unchanged").toOption.getD true
-    let expected := (j.getObjValAs? Bool "same_as_expected").toOption.getD true
+    -- checks made on the Python side: a bool, or null when the check does not apply to this call
+    let applies (o : Option Bool) : Bool := o.getD true
+    let fresh := applies (← reqBoolOrNull j "same_as_fresh")
+    let first ← reqBool j "same_as_first"
+    let unch ← reqBool j "inputs_unchanged"
+    let rebuilt ← reqBool j "same_as_rebuilt"
+    let freshReg := applies (← reqBoolOrNull j "same_as_fresh_registry")
+    let layout := applies (← reqBoolOrNull j "same_in_other_layouts")
+    let specUnch ← reqBool j "spec_graph_unchanged"
+    let scopeUnch ← reqBool j "scope_unchanged"
+    let expected := applies (← reqBoolOrNull j "same_as_expected")
     -- handler lookups through the memo model of the registry this call used
-    let rg := (j.getObjValAs? Nat "reg").toOption.getD 0
-    let lookups : List (String × String × String) := match j.getObjVal? "impl_lookups" with
-      | .ok (.arr ls) => ls.toList.filterMap (fun e => match e with
-          | .arr #[.str ty, .str op, .str tag] => some (ty, op, tag)
-          | _ => none)
-      | _ => []
+    let rg ← reqNat j "reg"
+    let lookups ← (← reqArr j "impl_lookups").mapM (fun e => match e with
+      | .arr #[.str ty, .str op, .str tag, .bool rx] => pure (ty, op, tag, rx)
+      | _ => throw s!"impl_lookups: expected [type, op, tag, raise_exc], got {e.compress}")
     let (lkAgree, lkOk, hc') := replayLookups (a.regs rg) (a.hcs rg) lookups
     let a := { a with hcs := setAt a.hcs rg hc', agree := a.agree && lkAgree }
     -- a wildcard call: the lookups of `_extend_children` for the visited items, as the strategy
     -- `starStrategy` run against the memo of this registry (agree) and without any memo (holds)
-    let (a, starOk) : Acc × Bool := match j.getObjVal? "impl_star" with
-      | .ok sj =>
-        let obs : List StarObs := starObsOfJson sj
+    let (a, starOk) : Acc × Bool ← (match ← reqArrOrNull j "impl_star" with
+      | some sj => do
+        let obs ← starObsOfJson sj
         let tys : List String := obs.map StarObs.ty
         let w : World PathRepr Tag TReg := { pc := a.pc, pathStar := a.star, reg := a.regs, hc := a.hcs }
         let res := runCached parseText TReg.compute maxCache (starStrategy rg tys) (starFuel tys) w []
-        let cached : List (StarUse Tag) := res.1.getD []
-        let pure : List (StarUse Tag) := (runPure parseText TReg.compute (starStrategy rg tys) a.star a.regs
-          (starFuel tys) []).getD []
-        ({ a with hcs := res.2.hc,
-                  agree := a.agree && starAllMatch obs cached && pure == refStar (a.regs rg).compute tys },
-         starAllMatch obs pure)
-      | .error _ => (a, true)
+        let pureRes := runPure parseText TReg.compute (starStrategy rg tys) a.star a.regs (starFuel tys) []
+        match res.1, pureRes with
+        | some cached, some uncached =>
+          pure ({ a with hcs := res.2.hc,
+                         agree := a.agree && starAllMatch obs cached && uncached == refStar (a.regs rg).compute tys },
+                starAllMatch obs uncached)
+        | _, _ => throw "the wildcard strategy did not finish within starFuel"
+      | none => pure (a, true))
     -- a spec holding `Vars(...)`: its reads through the heap model / the value-level reference
-    let (a, varsOk) := match j.getObjVal? "vars" with
-      | .ok v =>
-        let key := (v.getObjValAs? String "key").toOption.getD ""
-        let base := pairsOfJson ((v.getObjVal? "base").toOption.getD .null)
-        let defaults := pairsOfJson ((v.getObjVal? "defaults").toOption.getD .null)
-        let ops := vopsOfJson ((v.getObjVal? "ops").toOption.getD .null)
-        let impl := readsOfJson ((v.getObjVal? "impl_reads").toOption.getD .null)
+    let (a, varsOk) ← (match j.getObjVal? "vars" with
+      | .ok .null => pure (a, true)
+      | .ok v => do
+        let key ← reqStr v "key"
+        let base ← pairsOfJson "vars base" (← reqArr v "base")
+        let defaults ← pairsOfJson "vars defaults" (← reqArr v "defaults")
+        let ops ← vopsOfJson (← reqArr v "ops")
+        let impl ← readsOfJson (← reqArr v "impl_reads")
         let heap := (assocGet a.vheaps key).getD [base]
         let (heap', reads) := evalVars heap 0 defaults ops
-        ({ a with vheaps := (key, heap') :: a.vheaps.filter (·.1 != key), agree := a.agree && reads == impl },
-         impl == refVars base defaults ops)
-      | .error _ => (a, true)
+        pure ({ a with vheaps := (key, heap') :: a.vheaps.filter (·.1 != key), agree := a.agree && reads == impl },
+              impl == refVars base defaults ops)
+      | .error _ => throw "field vars missing")
     -- T arithmetic / container-building specs: the heap model and `checkArith` on the implementation's observation
     let (a, arithOk, arithWhy) ← (match j.getObjVal? "arith" with
+      | .ok .null => pure (a, true, "")
       | .ok aj => do
         let (ag, ho, wy) ← arithCase aj
         pure ({ a with agree := a.agree && ag }, ho, wy)
-      | .error _ => pure (a, true, ""))
-    let ok := fresh && first && unch && rebuilt && freshReg && specUnch && scopeUnch && lkOk && starOk && varsOk && expected && arithOk
+      | .error _ => throw "field arith missing")
+    let ok := fresh && first && unch && rebuilt && freshReg && layout && specUnch && scopeUnch && lkOk && starOk && varsOk && expected && arithOk
     -- keep the model's cache in step with the texts this call parsed (observed as new cache keys)
-    let newKeys : List (Bool × String) := match j.getObjVal? "impl_new_keys" with
-      | .ok (.arr ks) => ks.toList.filterMap (fun e => match e with
-          | .arr #[.bool b, .str k] => some (b, k)
-          | _ => none)
-      | _ => []
+    let newKeys ← (← reqArr j "impl_new_keys").mapM (fun e => match e with
+      | .arr #[.bool b, .str k] => pure (b, k)
+      | _ => throw s!"impl_new_keys: expected [bool, string], got {e.compress}")
     let pc' := newKeys.foldl (fun pc bk => (fromText parseText maxCache bk.1 pc bk.2).2) a.pc
     let a := { a with pc := pc' }
-    let a := { a with agree := a.agree && sizesOK a j }
+    let a := { a with agree := a.agree && (← sizesOK a j) }
     let why := if !ok && a.why.isEmpty then
         (if !arithOk then s!"{arithWhy} (op {a.nOps})"
          else if !unch then s!"target/spec/scope changed at op {a.nOps}"
@@ -355,17 +411,22 @@ def stepOp (maxCache : Nat) (a : Acc) (j : Json) : Except String Acc := do
          else if !starOk then s!"a '*' / '**' traversal reached the children of an item by other handlers than the uncached lookups under the registrations in force give (op {a.nOps})"
          else if !lkOk then s!"a handler differs from the uncached lookup under the registrations in force (op {a.nOps})"
          else if !freshReg then s!"outcome differs from the same call in a freshly built registry with the same registrations (op {a.nOps})"
+         else if !layout then s!"the same registrations and the same lookup give another handler in a fresh interpreter with another memory layout (op {a.nOps})"
          else if !expected then s!"outcome of a fixed (target, spec) pair differs from its documented result (op {a.nOps})"
          else if !rebuilt then s!"outcome differs from the same call on freshly built spec/target objects (op {a.nOps})"
          else if !first then s!"outcome differs from the first time this call was made (op {a.nOps})"
          else s!"outcome differs from the same call in a fresh interpreter (op {a.nOps})") else a.why
     return { a with holds := a.holds && ok, why := why }
   | "register" =>
-    let rg := (j.getObjValAs? Nat "reg").toOption.getD 0
-    let cls := (j.getObjValAs? String "cls").toOption.getD "<unrelated>"
-    let kw := pairsOfJson ((j.getObjVal? "kw").toOption.getD .null)
+    let rg ← reqNat j "reg"
+    -- "cls": null = a fresh class unrelated to every class of the case
+    let cls ← (match j.getObjVal? "cls" with
+      | .ok (.str c) => pure c
+      | .ok .null => pure "<unrelated>"
+      | _ => throw "register: field cls missing or not a string / null")
+    let kw ← pairsOfJson "register kw" (← reqArr j "kw")
+    let exact ← reqBool j "exact"
     -- `register`: new registrations, the memo of this registry is reset
-    let exact := (j.getObjValAs? Bool "exact").toOption.getD false
     return { a with regs := setAt a.regs rg ((a.regs rg).register cls kw exact), hcs := setAt a.hcs rg [] }
   | _ => throw s!"unknown op {op}"
 
@@ -373,26 +434,20 @@ def run (j : Json) : Except String Json := do
   let ops ← (match j.getObjVal? "ops" with
     | .ok (.arr a) => pure a.toList
     | _ => throw "ops missing")
-  let mro : List (String × List String) := match j.getObjVal? "classes" with
-    | .ok (.arr cs) => cs.toList.filterMap (fun c =>
-        match c.getObjValAs? String "name", c.getObjVal? "mro" with
-        | .ok n, .ok (.arr m) => some (n, m.toList.filterMap (fun e => match e with | .str s => some s | _ => none))
-        | _, _ => none)
-    | _ => []
-  -- classes whose instances have no `__dict__`: no built-in `keys` handler
-  let nodefault : List (String × String) := match j.getObjVal? "classes" with
-    | .ok (.arr cs) => cs.toList.filterMap (fun c =>
-        match c.getObjValAs? String "name", c.getObjValAs? Bool "dict" with
-        | .ok n, .ok false => some (n, "keys")
-        | _, _ => none)
-    | _ => []
-  -- virtual bases (ABC.register / __subclasshook__ / collections.abc), as Python computed them
-  let virt : List (String × List String) := match j.getObjVal? "classes" with
-    | .ok (.arr cs) => cs.toList.filterMap (fun c =>
-        match c.getObjValAs? String "name", c.getObjVal? "virt" with
-        | .ok n, .ok (.arr m) => some (n, m.toList.filterMap (fun e => match e with | .str s => some s | _ => none))
-        | _, _ => none)
-    | _ => []
+  -- the classes of the case: name, MRO and virtual bases as Python computed them, and whether an
+  -- instance has a `__dict__` (null for an ABC, which is never instantiated): without one there is no
+  -- built-in `keys` handler
+  let classes ← reqArr j "classes"
+  let descs ← classes.mapM (fun c => do
+    let n ← reqStr c "name"
+    let m ← strsOfJson "mro" (← reqArr c "mro")
+    let v ← strsOfJson "virt" (← reqArr c "virt")
+    let d ← reqBoolOrNull c "dict"
+    pure (n, m, v, d))
+  let mro : List (String × List String) := descs.map (fun d => (d.1, d.2.1))
+  let virt : List (String × List String) := descs.map (fun d => (d.1, d.2.2.1))
+  let nodefault : List (String × String) := descs.filterMap (fun d =>
+    if d.2.2.2 == some false then some (d.1, "keys") else none)
   let reg0 : TReg := { mro := mro, nodefault := nodefault, virt := virt }
   let a ← ops.foldlM (stepOp Generated.maxCache) { regs := fun _ => reg0 }
   return Json.mkObj [("agree", a.agree), ("holds", a.holds), ("why", a.why),
